@@ -23,8 +23,14 @@ _DEVNULL = open(os.devnull, 'w')
 
 
 # ---------------------------------------------------------------------------------------------
+class SimLiveness(BaseException):
+    """The simulated process read the clock far more often than an uninterrupted run does: no progress."""
+
+
 class SimClock:
     """Stand-in for the `time` module.  Every .time() advances by a seeded increment."""
+
+    max_reads = None  # bounded liveness: budget of clock reads for this simulated process
 
     def __init__(self, seed, profile, on_read=None):
         self.rng = random.Random(seed)
@@ -36,6 +42,8 @@ class SimClock:
 
     def time(self):
         self.reads += 1
+        if self.max_reads is not None and self.reads > self.max_reads:
+            raise SimLiveness(f'{self.reads} clock reads')
         p = self.profile
         r = self.rng.random()
         if p == 'steady':
@@ -402,7 +410,7 @@ class World:
             return h5mod.load(path)
 
     # -- running one segment -----------------------------------------------------------------
-    def run_segment(self, start, fault=None, clock_seed=0):
+    def run_segment(self, start, fault=None, clock_seed=0, max_clock_reads=None):
         """start: ('fresh', params) or ('resume', filename).  Returns dict(outcome, results, error)."""
         import tenpy
         import tenpy.simulations.simulation as sim_mod
@@ -438,6 +446,7 @@ class World:
                 self.sigint_at = set(fault['at'])
                 self.kill_after_sigint = (fault['kill_after_ops'], fault.get('tear'))
         self.clock = SimClock(clock_seed, self.cfg['clock'], on_read=self._deliver)
+        self.clock.max_reads = max_clock_reads
         # hidden randomness owned by the simulated process: numpy's global generator and ARPACK's internal
         # start-vector generator (Fortran state that survives across calls within a real process)
         np.random.seed(clock_seed % (2**32))
@@ -466,6 +475,9 @@ class World:
                 out['outcome'] = 'finished'
             except SimCrash:
                 out['outcome'] = 'killed'
+            except SimLiveness as e:
+                out['outcome'] = 'no_progress'
+                out['error'] = str(e)
             except KeyboardInterrupt as e:
                 out['outcome'] = 'keyboard_interrupt'
                 out['error'] = str(e)[:100]
